@@ -65,7 +65,7 @@ func childMain(cfg props.Cfg) int {
 	var w, W int
 	fmt.Sscanf(arg, "%d/%d", &w, &W)
 	var s sink.Sink = em
-	nPos, nNeg := cfg.Pick(3000, 40000)/W+1, cfg.Pick(20000, 250000)/W+1
+	nPos, nNeg := cfg.Pick(3000, 120000)/W+1, cfg.Pick(20000, 800000)/W+1
 	if mode == "race" {
 		s = sink.Prefixed{Sink: em, P: "race_slice_"}
 		nPos, nNeg = nPos/4+1, nNeg/8+1
